@@ -144,6 +144,44 @@
                 for (t0, t2) in [("a", "a"), ("", ""), ("\n ", "\n"), (" ", " \n")] { check(&[t0, t1, t2], &[*a, *b], trim, lstrip, keep, &default_delims, &env); n += 1; }
             } } }
         }
+        // raw blocks: the content is verbatim; the tags of the raw block obey the same rules as block tags
+        for s in 0..8u8 {
+            let (trim, lstrip, keep) = (s & 1 != 0, s & 2 != 0, s & 4 != 0);
+            let mut env = Environment::new();
+            env.set_trim_blocks(trim); env.set_lstrip_blocks(lstrip); env.set_keep_trailing_newline(keep);
+            for content in ["R", "\nR", "\r\nR", "\n\nR", " \nR", "{{ x }}{% if %}{# #}", "R\n", "R \n"] {
+                for (orm, elm) in [(' ', ' '), ('-', ' '), ('+', ' '), (' ', '-'), (' ', '+')] {
+                    for t0 in ["", "a\n", "  "] { for t1 in ["", "\nb", "\r\nb", " b"] {
+                        let m = |c: char| if c == ' ' { String::new() } else { c.to_string() };
+                        let src = format!("{t0}{{% raw {}%}}{content}{{%{} endraw %}}{t1}", m(orm), m(elm));
+                        // expected by the rules
+                        let mut c = content.to_string();
+                        if orm == '-' { c = c.trim_start().to_string(); }
+                        else if orm == ' ' && trim { if c.starts_with('\r') { c.remove(0); } if c.starts_with('\n') { c.remove(0); } }
+                        if elm == '-' { c = c.trim_end().to_string(); }
+                        else if elm == ' ' && lstrip {
+                            // the endraw tag is at a line start iff only blanks precede it on its line
+                            let line_tail: &str = c.rsplit(|ch| ch == '\n' || ch == '\r').next().unwrap();
+                            let whole_is_blank_prefix = !content.contains('\n') && false;
+                            if line_tail.chars().all(|ch| ch.is_whitespace()) && (c.contains('\n') || whole_is_blank_prefix) {
+                                let trimmed = c.trim_end_matches(|ch: char| ch.is_whitespace() && ch != '\n' && ch != '\r');
+                                if trimmed.is_empty() || trimmed.ends_with('\n') { c = trimmed.to_string(); }
+                            }
+                        }
+                        let mut a = t0.to_string();
+                        if lstrip && a.chars().all(|ch| ch.is_whitespace() && ch != '\n') { a.clear(); }
+                        else if lstrip && a.ends_with('\n') {}
+                        let mut b = t1.to_string();
+                        if trim { if b.starts_with('\r') { b.remove(0); } if b.starts_with('\n') { b.remove(0); } }
+                        if !keep && b.ends_with('\n') { b.pop(); }
+                        let expect = format!("{a}{c}{b}");
+                        let got = env.render_str(&src, crate::context! { x => "V" }).unwrap_or_else(|e| panic!("{src:?}: {e}"));
+                        assert!(got == expect, "raw: source {src:?} trim_blocks={trim} lstrip_blocks={lstrip} keep={keep}: rendered {got:?}, rules give {expect:?}");
+                        n += 1;
+                    } }
+                }
+            }
+        }
         assert!(n > 100_000, "{n}");
         // text that merely looks like tags of another configuration is plain text; delimiters can be rewritten
         #[cfg(feature = "custom_syntax")]
